@@ -113,8 +113,10 @@ CLAIMED.update({
              "and the live-block count is compared with the model's ledger after EVERY operation and must be 0 after "
              "release.",
         note="PARTIAL by nature: Lean proves nothing about the machine code; sanitizers sample the explored histories. "
-             "Ledger streams currently cover the tree table; the other containers' leak freedom rests on LeakSanitizer "
-             "at the end of each of their correspondence runs. Static hash table guard zones: see C07.",
+             "Ledger streams and ledger theorems cover the tree table, list/queue/stack/grow/vector (Props/C11Seq.lean) "
+             "and hash table/list table (Props/C11Map.lean): the library's live-block count is compared with the model's "
+             "ledger after every operation and must be 0 after release. Static hash table: guard zones and byte-exact "
+             "image comparison, see C07.",
         technique="Lean 4 proof of fault-freedom obligations + sanitizer build + allocation-ledger correspondence",
         design="7/C11"),
     "C12": dict(
@@ -131,8 +133,8 @@ CLAIMED.update({
              "scribbles (noninterference, put_get_reads_bytes_at_put_time), returned copies survive replace/remove/"
              "release (copy_survives), newmem=false aliases the stored block (nocopy_aliases), release frees everything "
              "(release_frees_all). The heap model is generic (not generated from each container's code); that each C call "
-             "site follows the discipline is tied by the scribble / retained-copy correspondence (tree table streams; the "
-             "other harnesses release caller buffers after each call under ASan).",
+             "site follows the discipline is tied by the scribble / retained-copy correspondence, which runs for the tree "
+             "table, list/queue/stack/grow/vector and hash table/list table harnesses (`end live=0 bad=0`).",
         technique="Lean 4 refinement corollaries + scribble/retained-copy correspondence under ASan",
         design="7/C12"),
     "C15": dict(
@@ -143,10 +145,14 @@ CLAIMED.update({
              "order of calloc/qmemdup calls and are tied to the code by fault enumeration: for every allocating operation "
              "x prefix states x failure at the 1st..4th allocation (single, and all-from-k) the C call is run with exactly "
              "that allocation failing (objcopy-renamed allocator), and result, allocation count, full state and live "
-             "blocks must equal the model's. Lockable containers under allocation failure: see C14's enumeration.",
-        note="PARTIAL: theorems cover the tree table; list/vector/hash-table/list-table allocation failure is exercised by "
-             "the C14 fault enumeration (every public function x every allocation position: returns, lock released) but "
-             "not yet against Lean failure-atomicity models. Five defects of the pinned tree repaired first.",
+             "blocks must equal the model's. The same for list/queue/stack/grow/vector (Props/C15Seq.lean: every allocating "
+             "operation and constructor, *_fault_atomic, ctor_fault, *_history_under_faults = fault_then_normal for all "
+             "histories and plans) and for hash table/list table (Props/C15Map.lean: put/putstrf/get/getnext/getmulti/"
+             "load/save/ctor, fault_then_normal).",
+        note="theorems are about the allocation-plan models (hand transcriptions of the allocation order, validated by the "
+             "fault enumeration: attempt counts compared on every call); the static hash table allocates only its handle "
+             "and returned copies (not modelled under faults); mutex-init failures other than allocation are not modelled. "
+             "Twelve defects of the pinned tree repaired first.",
         technique="Lean 4 proof (failure atomicity via the generalised insertion invariant) + fault-enumeration correspondence",
         design="7/C15"),
 })
